@@ -46,21 +46,22 @@ type rLifeEv struct {
 }
 
 type rHistory struct {
-	NSenders    int           `json:"n_senders"`
-	NHandlers   int           `json:"n_handlers"`
-	Calls       []rCallResult `json:"calls"`
-	In          [][]rFrame    `json:"in"`  // per generation: frames the peer received
-	Out         [][]rFrame    `json:"out"` // per generation: frames the peer sent
-	Dials       []int64       `json:"dials"`
-	FailedDials []int64       `json:"failed_dials"`      // stamps of dial attempts the harness refused (an epoch is published and torn down for each)
-	Closes      []int64       `json:"closes"`            // peer-side close stamp per generation (0 = not closed by the peer)
-	CloseT      []int64       `json:"-"`                 // wall clock (unix nanos) of the peer-side close
-	NotSelFid   []int         `json:"not_selected_fids"` // data frames the peer sent while it had the link deselected
-	Handled     []rHDeliv     `json:"handled"`
-	Snaps       []rSnap       `json:"snaps"`
-	Life        []rLifeEv     `json:"life"`
-	CloseCall   [2]int64      `json:"close_call"` // stamps around conn.Close()
-	GenDraws    uint32        `json:"gen_draws"`  // final value of the system-bytes counter (hook), 0 if unknown
+	NSenders        int           `json:"n_senders"`
+	NHandlers       int           `json:"n_handlers"`
+	Calls           []rCallResult `json:"calls"`
+	In              [][]rFrame    `json:"in"`  // per generation: frames the peer received
+	Out             [][]rFrame    `json:"out"` // per generation: frames the peer sent
+	Dials           []int64       `json:"dials"`
+	FailedDials     []int64       `json:"failed_dials"`      // stamps of dial attempts the harness refused (an epoch is published and torn down for each)
+	Closes          []int64       `json:"closes"`            // peer-side close stamp per generation (0 = not closed by the peer)
+	CloseT          []int64       `json:"-"`                 // wall clock (unix nanos) of the peer-side close
+	NotSelFid       []int         `json:"not_selected_fids"` // data frames the peer sent while it had the link deselected
+	Handled         []rHDeliv     `json:"handled"`
+	Snaps           []rSnap       `json:"snaps"`
+	Life            []rLifeEv     `json:"life"`
+	CloseCall       [2]int64      `json:"close_call"`       // stamps around conn.Close()
+	GenDraws        uint32        `json:"gen_draws"`        // final value of the system-bytes counter (hook), 0 if unknown
+	ValidateSession bool          `json:"validate_session"` // the connection runs WithSessionIDValidation(true); its own SessionID is 0xFFFF
 }
 
 // ---- linearizer
@@ -98,6 +99,7 @@ type shSender struct {
 	onWire   bool
 	call     *rCallResult
 	wantNS   bool // waiting for sel:0 to take the not-selected exit
+	lib      bool // a send the library made on its own (S9Fx notice): no harness call behind it
 }
 
 type shEpoch struct{ ctxDone, connOpen, joined bool }
@@ -156,6 +158,11 @@ func (f rFrame) offered() bool { // offered to the reply registry
 		return true
 	}
 	return false
+}
+
+// routerForeign: with session validation on, a data frame (other than S9F1) of another session is screened out.
+func (l *linearizer) routerForeign(f rFrame) bool {
+	return l.h.ValidateSession && f.IsData() && f.Session != 0xFFFF && !(f.Stream() == 9 && f.Fn() == 1)
 }
 
 func (f rFrame) token(gen int) string {
@@ -388,6 +395,11 @@ func (l *linearizer) forceAll(gen int) {
 
 func (l *linearizer) emitRecv(gen int, f rFrame) {
 	tok := f.token(gen)
+	if l.routerForeign(f) {
+		// counted at the receive chokepoint (if Selected), then answered with S9F1 and dropped
+		l.emit("rv:%d:F:%d", gen, f.Fid)
+		return
+	}
 	if tok == "" {
 		// peer-driven Deselect.req / Select.req on a live generation: the receive goroutine flips the state synchronously
 		if f.PType == 0 && f.SType == 3 && l.selected {
@@ -559,7 +571,7 @@ func (l *linearizer) processRead(gen, idx int) {
 		l.inPos[gen]++
 		f := h.In[gen][k]
 		i, ok := l.bySB[f.SB]
-		isPrimaryOfSender := ok && ((f.IsData() && f.Tag >= 0 && int(f.Tag) == i) || ((f.SType == 1 || f.SType == 5) && f.PType == 0 && l.snd[i].kind == "c"))
+		isPrimaryOfSender := ok && ((f.IsData() && f.Tag >= 0 && int(f.Tag) == i) || (f.IsData() && l.snd[i].lib) || ((f.SType == 1 || f.SType == 5) && f.PType == 0 && l.snd[i].kind == "c"))
 		if !isPrimaryOfSender {
 			continue
 		}
@@ -623,6 +635,11 @@ func linearize(h *rHistory) (toks []string, expectO map[int]string, l *linearize
 				s := l.snd[f.Tag]
 				s.sb, s.hasSB, s.onWire = f.SB, true, true
 				l.bySB[f.SB] = int(f.Tag)
+			case f.IsData() && f.Tag < 0 && f.Stream() == 9 && (f.Fn() == 1 || f.Fn() == 9):
+				// an S9Fx notice the library sent on its own (fresh system bytes, async send path)
+				id := len(l.snd)
+				l.snd = append(l.snd, &shSender{kind: "a", sb: f.SB, hasSB: true, onWire: true, lib: true})
+				l.bySB[f.SB] = id
 			case f.PType == 0 && (f.SType == 1 || f.SType == 5): // Select.req of this generation / a Linktest.req of the library
 				id := len(l.snd)
 				l.snd = append(l.snd, &shSender{kind: "c", sb: f.SB, hasSB: true, onWire: true})
